@@ -351,6 +351,6 @@ def run(res, tier):
                 "least one add succeeded and at least one get hit")
     std.run_standard(res, PID, tier, area="clpmap", build_impl=impl, gen_cases=gen_cases, oracle=oracle,
                      corr_name="ClpmapModel vs src/base/ClpMap.h", gens=["clpmap"],
-                     n_quick=20000, n_thorough=300000, seed_salt=51, mutate=mutate,
+                     n_quick=15000, n_thorough=300000, seed_salt=51, mutate=mutate,
                      kind_fn=kind, nontrivial_fn=nontrivial)
     minimise_violations(res)
